@@ -128,6 +128,21 @@ Print Assumptions identifier_sites_safe.
 Example ident_example : over "0123456789ABCDEFGHIJKLMNOPQRSTUVWXYZ_abcdefghijklmnopqrstuvwxyz" "level_2" = true.
 Proof. reflexivity. Qed.
 
+(* ---- numbers: every text Go prints for an integer or a float64 (%d, %f, strconv.Itoa, FormatInt,
+   FormatUint, FormatFloat in any format, including NaN, +Inf, -Inf) is over numeric_alphabet, which
+   contains no quote, backslash, double quote, back-quote, slash, star, hash or white space
+   (numeric_alphabet_harmless, computed): such a text is unchanged by the escaper, inside a literal it stays
+   inside it, and outside it can only add word, number, sign and point tokens; the one marker a leading
+   minus could complete, "--", is excluded per site by safe_site. *)
+Theorem numeric_sites_safe : numeric_alphabet_harmless = true /\
+  forall s acc, over numeric_alphabet s = true ->
+  esc s = s /\ after (QStr acc) s = QStr (acc ++ s) /\ outs (QStr acc) s = [].
+Proof. split; [reflexivity|]. exact (numeric_text numeric_alphabet eq_refl). Qed.
+Print Assumptions numeric_sites_safe.
+
+Example numeric_example : over numeric_alphabet "-1.5e+300" = true /\ over numeric_alphabet "+Inf" = true /\ over numeric_alphabet "NaN" = true.
+Proof. repeat split; reflexivity. Qed.
+
 (* ---- every SQL construction site of the reader formats only classified material, quoted values
    arrive where a quote opens a literal, and no site leaves a literal or comment open *)
 Theorem all_sql_sites_classified : forallb safe_site gen_sql_sites = true.
